@@ -538,8 +538,9 @@ def ExecUnit.isEmpty (eu : ExecUnit) : Bool := eu.co == .none
 
 def setWu (s : State) (j : Nat) (wu : WriteUnit) : State := { s with wus := s.wus.set j wu }
 
-/-- `writeUnit.cycle(ctx, before)` for unit `j`; `before = none` is the Go argument `-1`… as a value: the test is
-`before != -1 && execution.SequenceID > before` on `int32` -/
+/-- `writeUnit.cycle(ctx, before)` for unit `j`.  `before` is the `int32` argument (`-1` in the normal path, the pc of the
+flushing branch in the drain before a flush); an entry is consumed and DROPPED when
+`before != -1 && execution.SequenceID > before` (signed comparison) -/
 def wuCycle (s : State) (j : Nat) (before : Word) : M State :=
   match s.wus[j]? with
   | none => throw (.panic "write unit index")
